@@ -3,7 +3,7 @@
    Model: XmlNs/XSerModel.v (XmlSerializer driven by RcDom's traversal);
    specification: XmlNs/XSerSpec.v. *)
 From Coq Require Import List NArith Bool.
-From HV Require Import XmlNs.XTreeModel XmlNs.XSerModel XmlNs.XSerSpec XmlNs.XSerProofs.
+From HV Require Import XmlNs.XTreeModel XmlNs.XSerModel XmlNs.XSerSpec XmlNs.XSerProofs XmlNs.XRoundTrip.
 Import ListNotations.
 Local Open Scope N_scope.
 
@@ -56,20 +56,44 @@ Theorem C17_instrumentation_is_erasable :
 Proof. exact ser_nodes_g_erase. Qed.
 Print Assumptions C17_instrumentation_is_erasable.
 
-(* C17_roundtrip_partial.  Full statement (NOT proved as a theorem):
-     forall x, let t := tree (parse x) in
-       t outside the finding classes -> tree (parse (serialize t)) = t.
-   Proved: the two lemmas above (every name is adequately declared; text and
-   attribute values are escaped reversibly) for all trees outside the classes,
-   and C16 (Props/C16.v: the tree builder resolves exactly what is declared).
-   Missing: (1) the composition "adequately declared + lexical-scope resolver
-   => the re-built tree is the same tree" by induction over the builder's run
-   on the serializer's token stream (tested on every generated tree by the
-   check through [roundtrip_tok], see evidence: model_roundtrip_expected);
-   (2) the XML tokenizer's lexing of tags, attributes, comments and PIs of the
-   serializer's output (tied by the item-denotation correspondence only).
-   What IS proved about the round trip are the refutations: the token-level
-   re-parse of the model's own output loses the three witness trees. *)
+(* C17_roundtrip_partial: the round trip at TOKEN level.
+   Full statement: forall x, let t := tree (parse x) in
+     t outside the finding classes -> tree (parse (serialize t)) = t.
+   Proved here: for every document [kids] of the shape the parser produces
+   (prolog of comments / PIs / doctype, one root element, epilog of comments /
+   PIs; no adjacent text nodes; names that print and split back; xml / xmlns
+   fixed; attributes with distinct expanded names that are not declarations),
+   on which the serializer's bookkeeping defects do not come into play
+   ([ser_clean]) and whose written tags are outside the C16 finding classes
+   ([item_ok], the re-parse side of DESIGN 6.3 rows 8/9) - all of it one
+   decidable check [rt_hyps] - the tokens denoted by the serializer's items
+   ([item_rtoken]: start tag with the written declarations and attributes, end
+   tag, text, comment, PI, doctype), run through the tokenizer's attribute
+   stage and the tree builder model, rebuild the same document (doctype ids
+   blanked: they are outside the serializer API).
+   What is missing for the full statement:
+   (1) the XML tokenizer's lexing of the characters [render] writes into those
+       tokens (tags, attributes, comments, PIs) - tied by the item-denotation
+       correspondence of the check; for character data and attribute values it
+       is C17_escape_reversible_* above;
+   (2) "t = tree (parse x)" is replaced by the explicit shape conditions; that
+       parsed trees satisfy them is tested on every generated tree, not proved. *)
+Theorem C17_roundtrip_partial :
+  forall kids, rt_hyps kids = true -> reparse kids = map strip_ids kids.
+Proof. exact roundtrip_tokens_decidable. Qed.
+Print Assumptions C17_roundtrip_partial.
+
+Theorem C17_roundtrip_partial_explicit :
+  forall pre name attrs ks post,
+  let kids := pre ++ XElem name attrs ks :: post in
+  forallb is_prolog pre = true -> forallb is_misc post = true ->
+  node_wf (XElem name attrs ks) = true ->
+  ser_clean kids = true -> forallb item_ok (ser_doc kids) = true ->
+  reparse kids = map strip_ids kids.
+Proof. exact roundtrip_tokens_outside_finding. Qed.
+Print Assumptions C17_roundtrip_partial_explicit.
+
+(* the unconditional round trip is false for the model of the code as it is *)
 Theorem C17_roundtrip_refuted :
   roundtrip_tok wA = false /\ roundtrip_tok wB = false /\ roundtrip_tok wC = false.
 Proof. exact roundtrip_refuted. Qed.
@@ -84,5 +108,6 @@ Print Assumptions C17_witnesses_are_in_the_classes.
    prefix and escaped characters is clean, adequately declared and survives the
    token-level round trip (a TEST by vm_compute, not a proof of the round trip) *)
 Example C17_nonvacuous :
-  ser_clean ex_tree = true /\ adequate (ser_doc ex_tree) [] = true /\ roundtrip_tok ex_tree = true.
-Proof. exact ex_tree_ok. Qed.
+  ser_clean ex_tree = true /\ adequate (ser_doc ex_tree) [] = true /\ roundtrip_tok ex_tree = true /\
+  rt_hyps ex_doc2 = true.
+Proof. destruct ex_tree_ok as (A & B & C). pose proof ex_doc2_hyps as D. repeat split; assumption. Qed.
